@@ -244,8 +244,15 @@ def gen_c02(rng, probe, tier):
         # one closed sub-formula under several quantifiers with DIFFERENT domains inside one formula
         # (sibling scopes): each occurrence must see its own domain
         closed_gen = gen.FormulaGen(rng, m["vars"], wild=["p"], p_quant=0.0, quant=[], p_jump=0.0, unary=["not", "EX", "AX", "EF", "AG"], binary=["and", "or", "EU"])
-        for j in range(per_net // 3):
+        for j in range(per_net):
             body = closed_gen.gen(rng.randint(2, 4))
+            if j % 2 == 1:
+                # an OPEN shared sub-formula (it mentions the quantified variable): fetched from the cache it has
+                # to be renamed when the occurrences sit at different nesting depths
+                for _ in range(10):
+                    body = closed_gen.gen(rng.randint(2, 4), scope=["x"])
+                    if "x" in gen.free_vars(body):
+                        break
             parts = []
             for _ in range(rng.randint(2, 3)):
                 q = rng.choice(["exists", "forall", "bind"])
@@ -256,7 +263,13 @@ def gen_c02(rng, probe, tier):
                     inner = H("jump", "x", inner)
                 elif x < 0.75:
                     inner = B(rng.choice(["and", "or"]), inner, V("x"))
-                parts.append(H(q, "x", inner, dom))
+                part = H(q, "x", inner, dom)
+                if rng.random() < 0.6:
+                    # one more (restricted) quantifier around this occurrence: the shared sub-formula is then
+                    # used at a different nesting depth, i.e. under a different internal variable name
+                    part = H(rng.choice(["bind", "exists", "forall"]), "u",
+                             part if rng.random() < 0.5 else B(rng.choice(["and", "or"]), part, V("u")), rng.choice(["d", "e", "A", ""]))
+                parts.append(part)
             f = parts[0]
             for p_ in parts[1:]:
                 f = B(rng.choice(["and", "or", "imp"]), f, p_)
@@ -626,6 +639,14 @@ def gen_c15(rng, probe, tier):
             d = k_for(f)
             ctx = {l: rand_ctx_spec(rng) for l in ("p", "q", "d", "e")} if ext else {}
             calls = []
+            if j % 4 == 3 and not ext and m["pbits"] >= 1:
+                # graphs with a CUSTOM unit set (a subset of the colours), same subset for every k
+                cm = rng.randrange(1 << 30)
+                for extra in (0, 1, 2):
+                    calls.append(call(rng.choice(["formula", "tree", "multi"]), [f], d + extra, ids=[1], unit_cmask=cm))
+                    calls.append(call("formula_dirty", [f], d + extra, ids=[1], unit_cmask=cm))
+                cases.append({"id": "%s-u%d" % (m["id"], j), "net": m["id"], "kinds": ["equal", "canon"], "calls": calls})
+                continue
             # graphs whose variables have different numbers of spare sets (each at least the nesting depth)
             for _ in range(2):
                 km = [d + rng.choice([0, 0, 1, 2]) for _ in range(m["n"])]
